@@ -34,7 +34,8 @@ Inductive fo_out := FOk (ext_i ext int_i int : list nat) (hash : Z) (mono : bool
 Inductive po_out := POk (ext_i ext : list nat) (intent : list desc) (hash : Z) | PErr (kind : nat).
 
 Inductive c08_case :=
-| CmpCase (pattern : bool) (ctxs : list ctxv) (cs : list cc) (res : list (list nat))
+| CmpCase (pattern : bool) (ctxs : list ctxv) (fresh : list Z) (cs : list cc) (res : list (list nat))
+      (* fresh : hash_fixed of a freshly built context with the content ctxs[k] *)
 | FromObjCase (b : backend) (K : fctx) (h : Z) (items : list (objs_arg * bool * bool * fo_out))
 | PFromObjCase (K : mvctx) (h : Z) (items : list (objs_arg * bool * bool * po_out))
 | SetattrCase (pattern : bool) (key : nat) (impl_err : nat) (unchanged : bool)
@@ -76,17 +77,25 @@ Definition spec_row (pattern : bool) (ctxs : list ctxv) (a b : cc) : list nat :=
     let m := cc_mono a in let A := cc_ext a in let B := cc_ext b in
     map b2n [spec_eq A B; negb (spec_eq A B); spec_le m A B; spec_lt m A B; spec_le m B A; spec_lt m B A].
 
-(* finding D18 (guard_index 1): the hashes differ or the contexts are equal *)
-Definition d18_guard (ctxs : list ctxv) (a b : cc) : bool :=
-  negb (Z.eqb (cc_hash a) (cc_hash b)) || same_ctx ctxs a b.
+(* finding D18 (guard_index 1): hash_fixed of the two context CONTENTS differs, or the contents are
+   equal.  The hash a concept carries must be the one of the content it was derived from (model:
+   from_objects stores H K) -- a stale or otherwise wrong stored hash is not covered by D18 *)
+Definition fresh_of (fresh : list Z) (c : cc) : Z := nth (cc_ctx c) fresh (-1)%Z.
+Definition d18_guard (ctxs : list ctxv) (fresh : list Z) (a b : cc) : bool :=
+  negb (Z.eqb (fresh_of fresh a) (fresh_of fresh b)) || same_ctx ctxs a b.
 
-(* what the theorems assume of a library-derived concept: a strictly increasing list of object
-   indexes of its context; for a non-monotone formal concept also a closed set *)
-Definition derived_ok (ctxs : list ctxv) (c : cc) : bool :=
+Fixpoint nodupb (l : list nat) : bool :=
+  match l with [] => true | x :: l' => negb (mem x l') && nodupb l' end.
+
+(* what the theorems assume of a library-derived concept: object indexes of its context, strictly
+   increasing for a formal concept (and a closed set when not monotone), duplicate-free in any order
+   for a pattern concept (close_by_one_objectwise stores e.g. (0, 1, 4, 2)) *)
+Definition derived_ok (pattern : bool) (ctxs : list ctxv) (c : cc) : bool :=
   match nth_error ctxs (cc_ctx c) with
   | None => false
   | Some x =>
-      increasingb (cc_ext c) && in_rangeb (ctxv_height x) (cc_ext c)
+      (if pattern then nodupb (cc_ext c) else increasingb (cc_ext c))
+      && in_rangeb (ctxv_height x) (cc_ext c)
       && match x with
          | FCtx K => if cc_mono c then true
                      else nat_list_eqb (cl_obj (k_table K) (cc_ext c)) (cc_ext c)
@@ -98,13 +107,15 @@ Definition res_at (res : list (list nat)) (n i j k : nat) : nat := nth k (nth (i
 
 Definition firstn_eqb (k : nat) (a b : list nat) : bool := nat_list_eqb (firstn k a) (firstn k b).
 
-Definition cmp_check (pattern : bool) (ctxs : list ctxv) (cs : list cc) (res : list (list nat)) : nat :=
+Definition cmp_check (pattern : bool) (ctxs : list ctxv) (fresh : list Z) (cs : list cc)
+           (res : list (list nat)) : nat :=
   let n := length cs in
   let idx := seq 0 n in
   let pairs := list_prod idx idx in
   let cat i := nth i cs (mk_cc 0 0 false []) in
   let row i j := nth (i * n + j) res [] in
   let same :=
+      forallb (fun c => Z.eqb (cc_hash c) (fresh_of fresh c)) cs &&
       forallb (fun p => let '(i, j) := p in
                  let m := model_row pattern (cat i) (cat j) in
                  firstn_eqb 6 (row i j) m && Nat.eqb (length (row i j)) 7
@@ -113,7 +124,7 @@ Definition cmp_check (pattern : bool) (ctxs : list ctxv) (cs : list cc) (res : l
   let ok_pair p := let '(i, j) := p in
                    firstn_eqb 6 (row i j) (spec_row pattern ctxs (cat i) (cat j))
                    && (negb (Nat.eqb (nth 0 (row i j) 9) 1) || Nat.eqb (nth 6 (row i j) 9) 1) in
-  let guard p := let '(i, j) := p in d18_guard ctxs (cat i) (cat j) in
+  let guard p := let '(i, j) := p in d18_guard ctxs fresh (cat i) (cat j) in
   let le i j := res_at res n i j 2 in
   let eq i j := res_at res n i j 0 in
   (* partial-order laws read off the implementation's own answers *)
@@ -124,7 +135,8 @@ Definition cmp_check (pattern : bool) (ctxs : list ctxv) (cs : list cc) (res : l
       && forallb (fun p => let '(i, j) := p in
                    negb (Nat.eqb (le i j) 1)
                    || forallb (fun k => negb (Nat.eqb (le j k) 1) || Nat.eqb (le i k) 1) idx) pairs in
-  let pre := forallb (derived_ok ctxs) cs && Nat.eqb (length res) (n * n) in
+  let pre := forallb (derived_ok pattern ctxs) cs && Nat.eqb (length res) (n * n)
+             && Nat.eqb (length fresh) (length ctxs) in
   let ok_all := pre && laws && forallb ok_pair pairs in
   let ok_guarded := pre && laws && forallb (fun p => negb (guard p) || ok_pair p) pairs in
   let guards_all := forallb guard pairs in
@@ -281,7 +293,7 @@ Definition setattr_check (pattern : bool) (key impl_err : nat) (unchanged : bool
 
 Definition c08_check (c : c08_case) : nat :=
   match c with
-  | CmpCase p ctxs cs res => cmp_check p ctxs cs res
+  | CmpCase p ctxs fresh cs res => cmp_check p ctxs fresh cs res
   | FromObjCase b K h items => fromobj_check b K h items
   | PFromObjCase K h items => pfromobj_check K h items
   | SetattrCase p k e u => setattr_check p k e u
@@ -297,11 +309,11 @@ Inductive c08_shown :=
 
 Definition c08_show (c : c08_case) : c08_shown :=
   match c with
-  | CmpCase p ctxs cs res =>
+  | CmpCase p ctxs fresh cs res =>
       let pairs := list_prod cs cs in
       ShCmp (map (fun ab => model_row p (fst ab) (snd ab)) pairs)
             (map (fun ab => spec_row p ctxs (fst ab) (snd ab)) pairs)
-            (map (fun ab => d18_guard ctxs (fst ab) (snd ab)) pairs)
+            (map (fun ab => d18_guard ctxs fresh (fst ab) (snd ab)) pairs)
   | FromObjCase b K h items =>
       ShFo (map (fun it => let '(arg, e, m, _) := it in fo_model b K h arg e m) items)
            (map (fun it => let '(arg, e, m, _) := it in fo_spec K h arg e m) items)
